@@ -16,7 +16,7 @@ Decided (structural, necessary conditions; no schedule is executed):
 import os
 
 from .. import effects
-from ..facts import VERIF, load_program, library_units, walk, children, strip_casts
+from ..facts import VERIF, load_program, library_units, walk, children, strip_casts, CALL_KINDS
 
 
 def sync_status(prog, f, node, locks, once_lambdas):
@@ -181,7 +181,6 @@ def check_managed_thread(chk, prog):
             cfg = op.cfg
             stores = []
             user_calls = []
-            from ..facts import CALL_KINDS
             for c in op.walk():
                 if c.get('k') not in CALL_KINDS:
                     continue
@@ -247,6 +246,23 @@ def check_managed_thread(chk, prog):
                   'it also consults %s: unsynchronised with join()/detach()/swap() of the thread handle, and the '
                   'answer no longer follows the running function' % ', '.join(sorted(set(others))))
 
+    # R2e: the destructor waits for the thread whenever the handle is joinable - whatever the flag says (a thread
+    # whose function has not yet started, or has just cleared the flag, still runs code that uses the flag member)
+    # - and never detaches it
+    from ..rules import implied_edges
+    dts = [f for f in prog.functions if f.classq == 'celma::common::ManagedThread' and f.short.startswith('~')
+           and f.body is not None]
+    chk.require(dts, 'destructor of ManagedThread not found')
+    for f in dts:
+        def is_joinable(c):
+            return c.get('k') in CALL_KINDS and (c.get('callee') or '').endswith('::joinable')
+        joins = [c for c in f.calls() if (c.get('callee') or '') == 'std::thread::join']
+        det = [c for c in f.calls() if (c.get('callee') or '') == 'std::thread::detach']
+        chk.check(not det, 'R2e', f.name, 'the destructor never detaches the thread', f.loc(det[0]) if det else f.loc(),
+                  'a detached thread goes on using the flag member of the destroyed object')
+        off = f.cfg.must_pass_through(lambda n: n in joins, blocked_edges=implied_edges(f, is_joinable, False))
+        chk.check(bool(joins) and not off, 'R2e', f.name, 'the destructor joins the thread on every path on which the '
+                  'handle is joinable', f.loc(), '; '.join(str(o) for o in off[:3]) if off else 'no join()')
 
 def run(chk):
     units = [os.path.join(VERIF, 'drivers', 'concurrency.cpp')]
@@ -274,5 +290,6 @@ def run(chk):
     chk.rule('R2b', 'flag is std::atomic', 2)
     chk.rule('R2c', 'flag set/cleared around the user function on every normal path', 2)
     chk.rule('R2d', 'isActive() reads the flag through the atomic', 1)
+    chk.rule('R2e', 'the destructor joins a joinable thread and never detaches', 2)
     check_singleton(chk, prog)
     check_managed_thread(chk, prog)
